@@ -349,3 +349,162 @@ Example C09_ex_zero_quota :
   reproduce_species (ex_opts 0 10) 1 [] [1] (ex_species 1 3 0 [1; 2]) (p_heap ex_pop5) 100 (ex_state [])
   = Ok ((p_heap ex_pop5, 100, []), ex_state []).
 Proof. vm_compute. reflexivity. Qed.
+
+(* ================= float-level hypothesis discharged (proofs/FloatMonoQuota.v) ================= *)
+From NeatModel Require FloatMonoQuota.
+
+(* ExpectedOffspring is never negative when no fitness value is.  "Not below zero" is
+   [PrimFloat.ltb x 0 = false] (zeros, positive finite numbers, +infinity, NaN): it follows from
+   "finite and >= 0" and is what countOffspring needs.  The sum of such floats is not below zero
+   (possibly +infinity), so is the average, and a fitness divided by a non-zero average is not below
+   zero (an average of +infinity gives 0, or NaN for an infinite fitness).  When the average is zero
+   the code leaves ExpectedOffspring as it was, whence the last hypothesis. *)
+Theorem C09_expected_offspring_not_negative :
+  forall p p' orgs,
+    purge_zero_offspring p = Ok p' ->
+    hgets (p_heap p) (p_orgs p) = Ok orgs ->
+    (forall y, In y orgs -> PrimFloat.ltb (o_fit y) 0%float = false) ->
+    let avg := PrimFloat.div (fold_left (fun acc x => PrimFloat.add acc (o_fit x)) orgs 0%float) (f_of_Z (zlen orgs)) in
+    (PrimFloat.eqb avg 0%float = true ->
+     forall k x, In k (p_orgs p) -> hget (p_heap p) k = Ok x -> PrimFloat.ltb (o_exp x) 0%float = false) ->
+    PrimFloat.ltb avg 0%float = false /\
+    forall k x, In k (p_orgs p) -> hget (p_heap p') k = Ok x -> PrimFloat.ltb (o_exp x) 0%float = false.
+Proof.
+  intros p p' orgs Hp Ho Hfit avg Hz.
+  exact (conj (FloatMonoQuota.pz_avg_not_lt0 orgs Hfit) (FloatMonoQuota.purge_zero_exp_nonneg p p' orgs Hp Ho Hfit Hz)).
+Qed.
+Print Assumptions C09_expected_offspring_not_negative.
+
+(* finite and >= 0, or +infinity, as a float comparison, is "not below zero" *)
+Theorem C09_nonneg_is_not_negative :
+  forall x, PrimFloat.leb 0%float x = true -> PrimFloat.ltb x 0%float = false.
+Proof. exact FloatMonoQuota.leb0_not_lt0. Qed.
+Print Assumptions C09_nonneg_is_not_negative.
+
+(* The headline C09_quotas_total_population_size with the hypothesis on the FITNESS values (as they
+   are after adjustFitness) instead of the one on ExpectedOffspring: species members belong to
+   Population.Organisms, no organism's fitness is below zero, and, for the case of a zero average
+   (in which the code does not write ExpectedOffspring), the old values are not below zero. *)
+Theorem C09_quotas_total_population_size_from_fitness :
+  forall p p' orgs sps T,
+    purge_zero_offspring p = Ok p' ->
+    hgets (p_heap p) (p_orgs p) = Ok orgs ->
+    count_all (p_heap p') (p_species p) 0%float 0 = Ok (sps, T) ->
+    p_species p <> [] -> NoDup (map sp_id (p_species p)) ->
+    (forall s k, In s (p_species p) -> In k (sp_orgs s) -> In k (p_orgs p)) ->
+    (forall y, In y orgs -> PrimFloat.ltb (o_fit y) 0%float = false) ->
+    (PrimFloat.eqb (PrimFloat.div (fold_left (fun acc x => PrimFloat.add acc (o_fit x)) orgs 0%float) (f_of_Z (zlen orgs))) 0%float = true ->
+     forall k x, In k (p_orgs p) -> hget (p_heap p) k = Ok x -> PrimFloat.ltb (o_exp x) 0%float = false) ->
+    (T <= zlen orgs -> sp_sum (p_species p') = zlen orgs) /\
+    (zlen orgs < T -> sp_sum (p_species p') = T) /\
+    (forall s, In s (p_species p') -> 0 < sp_exp s) /\
+    (forall s, In s (p_detached p') -> In s (p_detached p) \/ sp_exp s <= 0).
+Proof. exact FloatMonoQuota.total_robust_fitness. Qed.
+Print Assumptions C09_quotas_total_population_size_from_fitness.
+
+(* the fitness produced by Species.adjustFitness is never below zero, whatever the raw fitness
+   (negative values are replaced by 0.0001 before the division by the species size n >= 0) *)
+Theorem C09_adjusted_fitness_not_negative :
+  forall o age debt n x, 0 <= n -> PrimFloat.ltb (o_fit (adjust_one o age debt n x)) 0%float = false.
+Proof. exact EpochTotalQuota.adjust_one_fit. Qed.
+Print Assumptions C09_adjusted_fitness_not_negative.
+
+(* With FINITE fitness values >= 0 (and a population of fewer than 2^63 organisms) whose average is
+   not zero, the average and every organism's ExpectedOffspring are proper binary64 numbers: >= 0 or
+   +infinity (overflow of the sum or of a quotient), never NaN.  Rounding to nearest is monotone, so
+   sums and quotients of non-negative numbers are non-negative; fitness / +infinity is 0. *)
+Theorem C09_expected_offspring_proper :
+  forall p p' orgs,
+    purge_zero_offspring p = Ok p' ->
+    hgets (p_heap p) (p_orgs p) = Ok orgs ->
+    1 <= zlen orgs < 2 ^ 63 ->
+    (forall y, In y orgs -> PrimFloat.leb 0%float (o_fit y) = true /\ PrimFloat.ltb (o_fit y) infinity = true) ->
+    let avg := PrimFloat.div (fold_left (fun acc x => PrimFloat.add acc (o_fit x)) orgs 0%float) (f_of_Z (zlen orgs)) in
+    PrimFloat.eqb avg 0%float = false ->
+    PrimFloat.leb 0%float avg = true /\
+    forall k x, In k (p_orgs p) -> hget (p_heap p') k = Ok x -> PrimFloat.leb 0%float (o_exp x) = true.
+Proof. exact FloatMonoQuota.purge_zero_exp_proper. Qed.
+Print Assumptions C09_expected_offspring_proper.
+
+(* the hypotheses of C09_quotas_total_population_size_from_fitness hold for the example population *)
+Example C09_ex_from_fitness_hyps :
+  match hgets (p_heap ex_pop3) (p_orgs ex_pop3) with
+  | Ok orgs =>
+    forallb (fun y => negb (PrimFloat.ltb (o_fit y) 0) && PrimFloat.leb 0 (o_fit y) && PrimFloat.ltb (o_fit y) infinity) orgs &&
+    negb (PrimFloat.eqb (PrimFloat.div (fold_left (fun acc x => PrimFloat.add acc (o_fit x)) orgs 0%float) (f_of_Z (zlen orgs))) 0) &&
+    forallb (fun s => forallb (fun k => existsb (Z.eqb k) (p_orgs ex_pop3)) (sp_orgs s)) (p_species ex_pop3) &&
+    negb (Nat.eqb (length (p_species ex_pop3)) 0)
+  | _ => false end = true.
+Proof. vm_compute. reflexivity. Qed.
+
+(* ============================================================================================ *)
+(* agent-quota: the float-level overshoot hypothesis "T <= n" — refuted for subnormal fitness     *)
+(* values, proved for all ordinary ones (proofs/QuotaFloatSum.v, QuotaFloatSumA.v, QuotaFloatSumB.v) *)
+(* ============================================================================================ *)
+From NeatModel Require QuotaFloatSum QuotaFloatSumB.
+
+(* Recorded finding `subnormal-fitness-quota-overshoot` (known_findings.txt, C09): "T <= n" does NOT
+   follow from "fitness finite and not negative".  Four organisms of one species with shared fitness
+   (2,1,1,1) x 2^-1074: every hypothesis of C09_quotas_total_population_size_from_fitness holds, the
+   fitness values are finite, the average is not zero (5/4 units, rounded to 1 unit: a subnormal
+   quotient has an absolute, not a relative rounding error), yet the chain total is 5 for 4
+   organisms and the quotas of Population.Species total 5. *)
+Theorem C09_quota_total_subnormal_refuted :
+  exists p p' orgs sps T,
+    purge_zero_offspring p = Ok p' /\
+    hgets (p_heap p) (p_orgs p) = Ok orgs /\
+    count_all (p_heap p') (p_species p) 0%float 0 = Ok (sps, T) /\
+    p_species p <> [] /\ NoDup (map sp_id (p_species p)) /\
+    (forall s k, In s (p_species p) -> In k (sp_orgs s) -> In k (p_orgs p)) /\
+    (forall y, In y orgs -> PrimFloat.leb 0%float (o_fit y) = true /\ PrimFloat.ltb (o_fit y) infinity = true) /\
+    PrimFloat.eqb (PrimFloat.div (fold_left (fun acc x => PrimFloat.add acc (o_fit x)) orgs 0%float) (f_of_Z (zlen orgs))) 0%float = false /\
+    zlen orgs = 4 /\ T = 5 /\ sp_sum (p_species p') = 5.
+Proof. exact QuotaFloatSum.quota_total_subnormal_refuted. Qed.
+Print Assumptions C09_quota_total_subnormal_refuted.
+
+(* The positive counterpart, for every population and every species structure: if every organism
+   belongs to exactly one species (no duplicates in Population.Organisms nor among the species
+   members, and the two list the same keys), there are at most 2^20 organisms, every shared fitness
+   value f (Organism.Fitness as purgeZeroOffspringSpecies reads it) is finite with 0 <= f <= 2^1000
+   and at least one is >= 2^-1000 (this excludes the finding above: the average is then a normal
+   binary64 number), then the float chain does not overshoot, T <= n, and therefore the quotas of
+   Population.Species total EXACTLY the number of organisms, all of them positive.
+   Binary64 error analysis through Flocq: the left-to-right sum S of non-negative floats satisfies
+   S >= exact sum * (1 - n 2^-53) without underflow error; the average and each quotient
+   fitness/average carry a relative error 2^-53 (plus 2^-1075 absolute for the quotients); in
+   countOffspring Floor, Mod(.,1) and the subtraction of Floor(skim) are exact and "skim += frac"
+   errs by at most 2^-52; hence T <= n + 2^-10 < n + 1.  2^20 organisms and 2^(+-1000) are far
+   beyond any use; the bounds are not tight. *)
+Theorem C09_quota_total_le_population_size :
+  forall p p' orgs sps T,
+    purge_zero_offspring p = Ok p' ->
+    hgets (p_heap p) (p_orgs p) = Ok orgs ->
+    count_all (p_heap p') (p_species p) 0%float 0 = Ok (sps, T) ->
+    NoDup (map sp_id (p_species p)) ->
+    NoDup (p_orgs p) -> NoDup (concat (map sp_orgs (p_species p))) ->
+    (forall k, In k (p_orgs p) <-> exists s, In s (p_species p) /\ In k (sp_orgs s)) ->
+    zlen orgs <= 2 ^ 20 ->
+    (forall y, In y orgs -> PrimFloat.leb 0%float (o_fit y) = true /\ PrimFloat.leb (o_fit y) 0x1p+1000%float = true) ->
+    (exists y, In y orgs /\ PrimFloat.leb 0x1p-1000%float (o_fit y) = true) ->
+    T <= zlen orgs /\ sp_sum (p_species p') = zlen orgs /\ (forall s, In s (p_species p') -> 0 < sp_exp s).
+Proof. exact QuotaFloatSumB.quota_total_le_population_size. Qed.
+Print Assumptions C09_quota_total_le_population_size.
+
+(* the hypotheses of C09_quota_total_le_population_size hold for the example population (seven
+   organisms in three species, fitness 0.1 ... 0.7): the boolean conjuncts are, in order, the size
+   bound, the range of every fitness value, one value >= 2^-1000, every organism is a member of some
+   species, every member is an organism of the population *)
+Example C09_ex_le_population_size_hyps :
+  NoDup (map sp_id (p_species ex_pop3)) /\ NoDup (p_orgs ex_pop3) /\ NoDup (concat (map sp_orgs (p_species ex_pop3))) /\
+  match hgets (p_heap ex_pop3) (p_orgs ex_pop3) with
+  | Ok orgs =>
+    Z.leb (zlen orgs) (2 ^ 20) &&
+    forallb (fun y => PrimFloat.leb 0 (o_fit y) && PrimFloat.leb (o_fit y) 0x1p+1000) orgs &&
+    existsb (fun y => PrimFloat.leb 0x1p-1000 (o_fit y)) orgs &&
+    forallb (fun k => existsb (fun s => existsb (Z.eqb k) (sp_orgs s)) (p_species ex_pop3)) (p_orgs ex_pop3) &&
+    forallb (fun s => forallb (fun k => existsb (Z.eqb k) (p_orgs ex_pop3)) (sp_orgs s)) (p_species ex_pop3)
+  | _ => false end = true.
+Proof.
+  split; [|split; [|split]]; [| | |vm_compute; reflexivity]; cbn;
+    repeat (constructor; [cbn; intuition discriminate|]); constructor.
+Qed.
